@@ -154,6 +154,29 @@ def boundary(cnt, cls):
     return cnt >= cls - 2 and (r >= cls - 2 or r <= 1)
 
 
+def objects_per_chunk(sz, num):
+    return (((num * sz + PAGE - 1) // PAGE) * PAGE) // sz
+
+
+def few_per_chunk(rng):
+    """(obj_sz, obj_num) giving exactly n in {1, 2, 3} objects per chunk of P in {1..4} pages: the smallest and the largest
+    object size (multiples of 8) with that population, sizes next to them, a random one in between; includes objects
+    larger than a page and sizes just below / above a half and a third of the chunk."""
+    for _ in range(200):
+        n = rng.choice([1, 1, 2, 3])
+        pages = rng.choice([1, 1, 2, 3, 4])
+        B = pages * PAGE
+        lo = (B // (n + 1)) // 8 * 8 + 8          # smallest multiple of 8 above B/(n+1): n objects fit, n+1 do not
+        hi = (B // n) // 8 * 8                    # largest multiple of 8 with n objects in B bytes
+        if lo > hi:
+            continue
+        sz = rng.choice([lo, lo, hi, hi, min(hi, lo + 8), max(lo, hi - 8), rng.randrange(lo, hi + 8, 8)])
+        for num in rng.sample(range(1, n + 1), n):
+            if objects_per_chunk(sz, num) == n:
+                return sz, num
+    return PAGE, 1
+
+
 def gen_script(rng, model, cls, libsizes, deep, budget):
     """One script. `deep`: how many growths of the chunk list to cross (0, 1, 2, 3); `budget`: max allocations."""
     # deep scripts must actually get there: no random walk around a fixed level
@@ -170,6 +193,10 @@ def gen_script(rng, model, cls, libsizes, deep, budget):
         name = rng.choice(sorted(libsizes))
         sz, num = libsizes[name]
         init = "init lib %s %d %d" % (name, sz, num)
+    elif rng.random() < 0.3:
+        # boundary chunk populations: 1, 2 or 3 objects per chunk, object sizes at the edges of each population
+        sz, num = few_per_chunk(rng)
+        init = "init %s %d %d" % (kind, sz, num)
     else:
         sz = rng.choice(OBJ_SIZES)
         num = rng.choice([1, 1, 2, 3, 5, 8, 16, 64, 100, 128, 256, 511, 512, 513, 1000])
